@@ -272,4 +272,101 @@ theorem stepG_abs (M : Sem R B O Args Res κ ν) (W : Laws M) (c : Call Args κ)
     | putRunner => have := putRunner_abs M W c S _ hS hL'; rw [hα] at this; exact this
     | poolPut => have := poolPut_abs M W c S _ hS hL'; rw [hα] at this; exact this
 
+/-! ### schedules -/
+
+/-- `iter f n a`: apply `f` to `a`, `n` times -/
+def iter {α' : Type} (f : α' → α') : Nat → α' → α'
+  | 0, a => a
+  | n + 1, a => iter f n (f a)
+
+/-- number of moves of goroutine `g` in a schedule -/
+def moves (g : Nat) : Schedule → Nat
+  | [] => 0
+  | s :: rest => (if s.1 = g then 1 else 0) + moves g rest
+
+def GInv (M : Sem R B O Args Res κ ν) (W : Laws M) (calls : Nat → Call Args κ) (σ : State R B Res κ ν) : Prop :=
+  SharedInv M W σ.shared ∧ ∀ g, LocalGood M W (calls g) (σ.locals g)
+
+theorem exec_abs (M : Sem R B O Args Res κ ν) (W : Laws M) (calls : Nat → Call Args κ) :
+    ∀ (sch : Schedule) (σ : State R B Res κ ν), GInv M W calls σ →
+      GInv M W calls (exec M calls sch σ) ∧
+      ∀ g, α M ((exec M calls sch σ).locals g) = iter (absStep M W (calls g)) (moves g sch) (α M (σ.locals g)) := by
+  intro sch
+  induction sch with
+  | nil => intro σ h; exact ⟨h, fun g => rfl⟩
+  | cons s rest ih =>
+    intro σ h
+    obtain ⟨g0, ch⟩ := s
+    have hstep := stepG_abs M W (calls g0) ch σ.shared (σ.locals g0) h.1 (h.2 g0)
+    have hinv : GInv M W calls (exec1 M calls (g0, ch) σ) := by
+      refine ⟨hstep.2.1, ?_⟩
+      intro g
+      by_cases hg : g = g0
+      · subst hg; simp only [exec1, if_true]; exact hstep.2.2
+      · simp only [exec1, hg, if_false]; exact h.2 g
+    obtain ⟨h1, h2⟩ := ih _ hinv
+    refine ⟨h1, ?_⟩
+    intro g
+    rw [show exec M calls ((g0, ch) :: rest) σ = exec M calls rest (exec1 M calls (g0, ch) σ) from rfl, h2 g]
+    by_cases hg : g0 = g
+    · subst hg
+      have : (exec1 M calls (g0, ch) σ).locals g0 = (stepG M (calls g0) ch σ.shared (σ.locals g0)).2 := by
+        simp [exec1]
+      rw [this, hstep.1]
+      simp only [moves, if_true]
+      rw [Nat.add_comm]
+      rfl
+    · have : (exec1 M calls (g0, ch) σ).locals g = σ.locals g := by
+        have hne : ¬ g = g0 := fun h => hg h.symm
+        simp [exec1, hne]
+      rw [this]
+      simp [moves, hg]
+
+theorem absStep_todo (M : Sem R B O Args Res κ ν) (W : Laws M) (c : Call Args κ) (A : AbsLocal O Res ν) :
+    (absStep M W c A).todo = A.todo.drop 1 := by
+  unfold absStep
+  cases h : A.todo with
+  | nil => simp [h]
+  | cons st rest =>
+    simp only [List.drop_succ_cons, List.drop_zero]
+    cases st with
+    | lruGet => simp only [absLruGet]; cases c.repl <;> rfl
+    | lruAdd => rfl
+    | getRunner => rfl
+    | poolGet => rfl
+    | runStep => simp only [absRunStep]; split <;> rfl
+    | putRunner => simp only [absPutRunner]; split <;> rfl
+    | poolPut => simp only [absPoolPut]; split <;> rfl
+
+theorem iterate_todo (M : Sem R B O Args Res κ ν) (W : Laws M) (c : Call Args κ) (n : Nat) (A : AbsLocal O Res ν) :
+    (iter (absStep M W c) n A).todo = A.todo.drop n := by
+  induction n generalizing A with
+  | zero => simp [iter]
+  | succ n ih =>
+    show (iter (absStep M W c) n (absStep M W c A)).todo = _
+    rw [ih, absStep_todo, List.drop_drop, Nat.add_comm]
+
+theorem iterate_done (M : Sem R B O Args Res κ ν) (W : Laws M) (c : Call Args κ) (k : Nat) (A : AbsLocal O Res ν)
+    (h : A.todo = []) : iter (absStep M W c) k A = A := by
+  induction k with
+  | zero => rfl
+  | succ k ih =>
+    show iter (absStep M W c) k (absStep M W c A) = A
+    have : absStep M W c A = A := by unfold absStep; simp [h]
+    rw [this, ih]
+
+theorem iterate_add {α' : Type} (f : α' → α') (m n : Nat) (x : α') : iter f (m + n) x = iter f n (iter f m x) := by
+  induction m generalizing x with
+  | zero => simp [iter]
+  | succ m ih =>
+    rw [Nat.succ_add]
+    show iter f (m + n) (f x) = iter f n (iter f m (f x))
+    exact ih (f x)
+
+theorem moves_replicate (n : Nat) : moves 0 (List.replicate n (0, 0)) = n := by
+  induction n with
+  | zero => rfl
+  | succ n ih => simp [List.replicate_succ, moves, ih]; omega
+
+
 end RegexVerif.Lemmas.Interleave
